@@ -139,6 +139,7 @@ type action struct {
 	http  int
 	delay time.Duration
 	ql    *QueryLog
+	fin   bool // close the stream connection after the reply
 }
 
 // handle decodes a query, decides what to do and logs it.
@@ -176,7 +177,7 @@ func (s *Server) decide(transport string, conn int64, raw []byte) *action {
 		hook(ql, &d)
 	}
 	ql.Kind = d.Kind
-	a := &action{kind: d.Kind, http: d.HTTP, delay: time.Duration(d.Delay) * time.Millisecond, ql: ql}
+	a := &action{kind: d.Kind, http: d.HTTP, delay: time.Duration(d.Delay) * time.Millisecond, ql: ql, fin: d.Fin}
 	switch d.Kind {
 	case "silent", "close", "rst", "http":
 		return a
@@ -396,6 +397,9 @@ func (s *Server) serveStream(transport string, raw net.Conn, cfg *tls.Config) {
 			}
 			c.Write(frame)
 			wm.Unlock()
+			if a.fin {
+				c.Close()
+			}
 		}()
 	}
 }
